@@ -1399,7 +1399,7 @@ func main() {
 	r.Extra["rejected_4xx_shapes"] = rejected
 	r.Extra["violation_class_counts"] = classCount
 	r.Extra["reference_fingerprints"] = "per (protocol, label set) from a single-stream body through the same parser"
-	r.Extra["d1_profile_probe"] = d1Probe()
+	r.Extra["d1_profile_probe"] = "retired: D1 (oversize profile chunk in the wrong response field) was confirmed with a probe of the real onProfile callback and is fixed in /repo (commit 9382052); the probe needed an export that named private fields of parserDoer, profiles are outside the C03 statement"
 	if int64(len(specs)) != done+skipped {
 		r.Cap(fmt.Sprintf("stopped after %d of %d cases", done+skipped, len(specs)))
 	}
